@@ -13,7 +13,7 @@ from ..runner import Ctx, Part, exc_sig
 from ..sim.core import CoreWorld
 
 TITLE = "task registry"
-EVENTS = ["start_task", "remove_task", "CONNECTED", "DISCONNECTED", "CONNECTING", "+1s", "+2s", "+3.5s", "stop", "start_other"]
+EVENTS = ["start_task", "remove_task", "CONNECTED", "DISCONNECTED", "CONNECTING", "+1s", "+2s", "+3.5s", "stop", "start_other", "stop+start"]
 STATE = {"CONNECTED": XknxConnectionState.CONNECTED, "DISCONNECTED": XknxConnectionState.DISCONNECTED, "CONNECTING": XknxConnectionState.CONNECTING}
 
 
@@ -82,21 +82,23 @@ def run_case(ci: int, seq: tuple[int, ...]) -> list[tuple[str, str]]:
             try:
                 if ev == "start_task":
                     reg.start_task(task)
-                    registered, lost, want1 = True, False, 1
+                    registered, lost, want1, stopped = True, False, 1, False
                 elif ev == "start_other":
                     reg.start_task(other)
-                    other_registered, other_lost, want2 = True, False, 1
+                    other_registered, other_lost, want2, stopped = True, False, 1, False
                 elif ev == "remove_task":
                     reg.remove_task(task)
                     registered = False
-                elif ev == "stop":
+                elif ev in ("stop", "stop+start"):
                     reg.stop()
                     registered = other_registered = False
                     stopped = True
+                    if ev == "stop+start":
+                        reg.start()   # what XKNX.stop() followed by XKNX.start() does: the same registry (and Task objects) are used again
                 elif ev in STATE:
                     new = STATE[ev]
                     w.xknx.connection_manager.connection_state_changed(new)
-                    if new != state and not stopped:
+                    if new != state:
                         if new == XknxConnectionState.CONNECTED:
                             if registered and restart:
                                 want1, lost = 1, False
@@ -128,13 +130,13 @@ def run_case(ci: int, seq: tuple[int, ...]) -> list[tuple[str, str]]:
                     viols.append(("target-running-twice", f"{name}: target active {pr.max_active} times concurrently; {ctxs}"))
             if not registered and live("T1"):
                 viols.append((f"instance-alive-after-{'stop' if stopped else 'remove'}", f"T1 live={live('T1')} active={probe.active}; {ctxs}"))
-            if stopped and live("T2"):
-                viols.append(("instance-alive-after-stop", f"T2 live={live('T2')}; {ctxs}"))
+            if not other_registered and live("T2"):
+                viols.append((f"instance-alive-after-{'stop' if stopped else 'remove'}", f"T2 live={live('T2')}; {ctxs}"))
             if registered and restart and lost and not connected and (live("T1") or probe.active):
                 viols.append(("restart-task-running-while-disconnected", f"T1 live={live('T1')} active={probe.active} state={state.name}; {ctxs}"))
             if other_registered and other_lost and not connected and (live("T2") or oprobe.active):
                 viols.append(("restart-task-running-while-disconnected", f"T2 live={live('T2')} active={oprobe.active} state={state.name}; {ctxs}"))
-            if (not registered and probe.active) or (stopped and oprobe.active):
+            if (not registered and probe.active) or (not other_registered and oprobe.active):
                 viols.append(("target-still-active-after-removal", f"active={probe.active}/{oprobe.active}; {ctxs}"))
         # horizon: a registered, connected, non-waiting task must actually have run; then tear down
         w.run(12.0)
@@ -158,14 +160,14 @@ def sequences(depth: int) -> list[tuple[int, ...]]:
     out = []
     for n in range(1, depth + 1):
         for seq in itertools.product(range(len(EVENTS)), repeat=n):
-            # 'stop' is terminal up to time passing / connection changes; sequences start with a registry call or a connection event
+            # sequences start with a registry call or a connection event
             if EVENTS[seq[0]].startswith("+"):
                 continue
             if EVENTS[seq[-1]].startswith("+") and n > 1 and EVENTS[seq[-2]].startswith("+"):
                 continue
             names = [EVENTS[e] for e in seq]
-            if "stop" in names and any(x in ("start_task", "start_other", "remove_task", "stop") for x in names[names.index("stop") + 1 :]):
-                continue  # the registry is not used again after stop() in these histories
+            if "stop" in names and any(x in ("start_task", "start_other", "remove_task", "stop", "stop+start") for x in names[names.index("stop") + 1 :]):
+                continue  # after a bare stop() the registry no longer listens to connection changes; reuse goes through 'stop+start'
             out.append(seq)
     return out
 
